@@ -175,6 +175,23 @@ def gen_world(rng: Rng) -> dict:
         kv[PATH_KEY] = "macros"
         sources[d1 + "/" + fn] = dict(kv)
         sources[d2 + "/" + fn] = dict(kv)
+    sole = None
+    if rng.chance(0.35):
+        # a nested section that exists in exactly ONE source (the Jinja context; not in the defaults either):
+        # a merge that layers that source without copying hands its very dict to every per-file config, and
+        # an inline directive of one file then writes into it. The explicit --config file is the sole source
+        # more often than not (it is merged last, by a call of its own).
+        if extra is None and rng.chance(0.5):
+            extra = "proj/extra_cfg/custom.cfg"
+            sources[extra] = rand_kv(rng, 1, 2, [k for k in KEYS if k not in ("core:dialect", PATH_KEY)])
+        sole = extra if extra and rng.chance(0.7) else rng.choice(sorted(sources))
+        for p, kv in sources.items():
+            for k in [k for k in kv if k.startswith("templater:jinja:context:")]:
+                if p != sole or k.endswith(":k1"):
+                    del kv[k]
+            if not kv:
+                kv["core:max_line_length"] = rng.choice(VALUES["core:max_line_length"])
+        sources[sole]["templater:jinja:context:k2"] = rng.choice(VALUES["templater:jinja:context:k2"])
     for p, kv in list(sources.items()):
         if PATH_KEY in kv:
             files[os.path.dirname(p) + "/" + kv[PATH_KEY] + "/vsim_macro.sql"] = {"b64": b64(b"{% macro vsim_noop() %}{% endmacro %}\n"), "mode": 0o644}
@@ -193,6 +210,12 @@ def gen_world(rng: Rng) -> dict:
             inline = {}
             if rng.chance(0.35):
                 inline = rand_kv(rng, 1, 2, INLINE_KEYS)
+            if sole and not sqls and rng.chance(0.8):
+                # (with a sole-source section: one file writes a key of that section inline, the others do not)
+                inline = dict(inline)
+                inline["templater:jinja:context:k1"] = rng.choice(VALUES["templater:jinja:context:k1"])
+            elif sole:
+                inline.pop("templater:jinja:context:k1", None)
             lines = []
             if inline and rng.chance(0.5):
                 lines.append("-- a leading comment, the directives follow")
